@@ -49,6 +49,13 @@ PARAM_THRESHOLD_ROWS = [
     ("restarts.rhoend_scale<=0", "restarts.rhoend_scale", "le", 0.0, "a restart factor of 0 makes rhoend 0 (division by rhoend in reduce_rho); fix 20b5f8b"),
 ]
 
+# an option that contradicts an argument: (row id, parameter key, truth of the key in the rejected combination, names on the smaller side of the comparison,
+#                                          names on the larger side, reason)
+OPTION_VS_ARGUMENT_ROWS = [
+    ("coordinate directions with npt > (n+1)(n+2)/2", "init.random_initial_directions", False, {"n"}, {"npt"},
+     "the coordinate initialiser supports at most (n+1)(n+2)/2 points (its own assertion); fix 4e6279b"),
+]
+
 # C07-7  raises that are part of the documented behaviour: (function fid, exception name, reason)
 ALLOWED_RAISES = [
     ("params.ParameterList.__call__", "ValueError", "documented: unknown parameter name / second update raise ValueError"),
